@@ -134,11 +134,14 @@ def gop(orc, line):
         return "ProcNode %s" % gpouts(f[1])
     if k == "pc" and len(f) == 2:
         return "ProcCC %s" % guout(f[1])
-    if k == "construct" and len(f) == 4:
+    if k == "construct" and len(f) in (4, 5):
         s1 = "None" if f[1] == "-" else "(Some %s)" % gcidr(f[1])
         s2 = "None" if f[2] == "-" else "(Some %s)" % gcidr(f[2])
         outs = "[" + "; ".join(UOUT.get(x, "UFail") for x in ([] if f[3] in ("-", "") else f[3].split(","))) + "]"
-        return "Construct %s %s %s" % (s1, s2, outs)
+        dp = "[]"
+        if len(f) == 5 and f[4] != "-":
+            dp = "[" + "; ".join("(%s, (%d)%%Z)" % (gcidr(x.split("=")[0]), int(x.split("=")[1])) for x in f[4].split(",")) + "]"
+        return "Construct %s %s %s %s" % (s1, s2, outs, dp)
     return None
 
 
